@@ -23,9 +23,19 @@ from ..src import AnalysisError, repo_root
 
 
 def _apply(root: Path, edits):
+    from . import transforms
     for file, old, new in edits:
         p = root / "tdgl" / file
         s = p.read_text()
+        if old == "@rename_locals":
+            s2 = transforms.rename_locals(s, new)
+            if s2 is None:
+                return f"skipped: function {new} not found / no locals"
+            p.write_text(s2)
+            continue
+        if old == "@reformat":
+            p.write_text(transforms.reformat(s))
+            continue
         if old not in s:
             return "skipped: anchor text not found in " + file
         s2 = s.replace(old, new, 1)
